@@ -160,10 +160,68 @@ theorem creplace_inv (s : CState) (h : CInv s) (id old key wt d : Nat) (hs : id 
     exact hj
   · exact wj_remove_many hw _
 
+/-- several expired nodes, one after the other -/
+theorem jexpire_many {S : List Nat} (E : List Nat) : ∀ {p : Policy} {live : List Nat}, JInv S p live → E.Nodup →
+    (∀ e ∈ E, e ∈ live) →
+    JInv S (E.foldl (fun p x => delete (retire p x) x) p) (live.filter (fun x => !E.contains x)) := by
+  induction E with
+  | nil =>
+    intro p live h _ _
+    have : live.filter (fun x => !([] : List Nat).contains x) = live := by
+      rw [List.filter_eq_self]; intro q _; simp
+    rw [this]; exact h
+  | cons e rest ih =>
+    intro p live h hnd hsub
+    have hnd' := List.nodup_cons.mp hnd
+    have h1 := jexpire h e (hsub e List.mem_cons_self)
+    have h2 := ih h1 hnd'.2 (fun e' he' => List.mem_filter.mpr ⟨hsub e' (List.mem_cons_of_mem _ he'),
+      by simpa using (fun (eq : e' = e) => hnd'.1 (eq ▸ he'))⟩)
+    rw [List.foldl_cons]
+    have : (live.filter (· != e)).filter (fun x => !rest.contains x) = live.filter (fun x => !(e :: rest).contains x) := by
+      rw [List.filter_filter]
+      apply List.filter_congr
+      intro q _
+      simp only [List.contains_cons, Bool.not_or, bne, Bool.and_comm]
+    rw [this] at h2
+    exact h2
+
+/-- **a maintenance sweep, through both policies**: the wheel hands the overdue nodes `X` to cache.evictNode, which unlinks each
+    mapped one from the table and calls policy.delete for it; `w'` is the wheel after DeleteExpired -/
+def csweepWith (s : CState) (X : List Nat) (w' : Wheel) : CState :=
+  { S := s.S, p := ((s.live.map (·.1)).filter (fun x => X.contains x)).foldl (fun p x => delete (retire p x) x) s.p,
+    w := w', live := s.live.filter (fun q => !X.contains q.1) }
+
+theorem csweepWith_inv (s : CState) (h : CInv s) (X : List Nat) (w' : Wheel)
+    (hw : WJ w' (s.live.filter (fun q => !X.contains q.1))) : CInv (csweepWith s X w') := by
+  constructor
+  · have hE : ((s.live.map (·.1)).filter (fun x => X.contains x)).Nodup := List.Nodup.sublist List.filter_sublist h.pol.nodup
+    have hj := jexpire_many _ h.pol hE (fun e he => (List.mem_filter.mp he).1)
+    have e : (s.live.filter (fun q => !X.contains q.1)).map (·.1)
+        = (s.live.map (·.1)).filter (fun x => !((s.live.map (·.1)).filter (fun x => X.contains x)).contains x) := by
+      rw [List.filter_map]
+      congr 1
+      apply List.filter_congr
+      intro q hq
+      have hm : q.1 ∈ s.live.map (·.1) := List.mem_map.mpr ⟨q, hq, rfl⟩
+      have key : ((s.live.map (·.1)).filter (fun x => X.contains x)).contains q.1 = X.contains q.1 := by
+        cases hc : X.contains q.1
+        · apply Bool.eq_false_iff.mpr
+          intro hh
+          have hmem : q.1 ∈ (s.live.map (·.1)).filter (fun x => X.contains x) := by simpa using hh
+          have := (List.mem_filter.mp hmem).2
+          rw [hc] at this; cases this
+        · have hmem : q.1 ∈ (s.live.map (·.1)).filter (fun x => X.contains x) := List.mem_filter.mpr ⟨hm, hc⟩
+          simpa using hmem
+      simp only [Function.comp, key]
+    show JInv s.S _ ((s.live.filter (fun q => !X.contains q.1)).map (·.1))
+    rw [e]; exact hj
+  · exact hw
+
 /-! ### histories of the combined state -/
 
 inductive COp where
   | insert (id key wt d : Nat) | replace (id old key wt d : Nat) | remove (old : Nat) | expireOne (old : Nat)
+  | sweep (T : Nat)
 
 /-- operations whose precondition fails are not steps of the cache (relation, not a function with `if d < 2^64`: see WheelJoint) -/
 inductive CStep : CState → CState → Prop
@@ -172,6 +230,8 @@ inductive CStep : CState → CState → Prop
       CStep s (creplace s id old key wt d)
   | remove (s : CState) (old : Nat) : old ∈ s.live.map (·.1) → CStep s (cremove s old)
   | expireOne (s : CState) (old : Nat) : old ∈ s.live.map (·.1) → CStep s (cexpireOne s old)
+  | sweep (s s' : CState) (T : Nat) : s.w.time ≤ T → T < Impl.Wheel.two64 →
+      s' = csweepWith s (Impl.Wheel.deleteExpired s.w T).2 (Impl.Wheel.deleteExpired s.w T).1 → CStep s s'
 
 inductive CRun : CState → CState → Prop
   | done (s : CState) : CRun s s
@@ -183,6 +243,7 @@ theorem cstep_inv {s s' : CState} (st : CStep s s') (h : CInv s) : CInv s' := by
   | replace id old key wt d hs ho hd => exact creplace_inv s h id old key wt d hs ho hd
   | remove old ho => exact cremove_inv s h old ho
   | expireOne old ho => exact cexpireOne_inv s h old ho
+  | sweep _ T hle hT e => rw [e]; exact csweepWith_inv s h _ _ (Impl.Wheel.wj_sweep h.whl T hle hT)
 
 /-- **both agreements after every history of insertions, removals and expirations** -/
 theorem crun_inv {s s' : CState} (r : CRun s s') (h : CInv s) : CInv s' := by
